@@ -51,8 +51,12 @@ static void ev_build(void) {
 	static const char *MN[4] = {"seg1 free seg2 free", "seg1 occ seg2 free", "seg1 free seg2 occ", "seg1 occ seg2 occ"};
 	for (int v = 0; v < 4; v++) { d[0] = 0; d[1] = 8; d[2] = (uint8_t) v; ev_add(0, MSG_BM_MULTIPLE, d, 3, "multiple master: %s%s", MN[v], ""); }
 	for (int v = 0; v < 2; v++) { d[0] = 0; d[1] = 8; d[2] = (uint8_t) v; ev_add(1, MSG_BM_MULTIPLE, d, 3, "multiple oc1: seg4 %s%s", v ? "occ" : "free", ""); }
+	{ uint8_t z = 0; ev_add(-1, 0, &z, 0, "bidib_send_sys_reset (detectors answer)%s%s", "", ""); ev_add(-1, 1, &z, 0, "bidib_send_sys_reset (detectors silent)%s%s", "", ""); }
 	for (int s = 0; s < 3; s++) for (int l = 0; l < NLIST; l++) { d[0] = SEG[s].num; memcpy(d + 1, LIST[l].e, (size_t) (2 * LIST[l].n)); ev_add(SEG[s].board, MSG_BM_ADDRESS, d, 1 + 2 * LIST[l].n, "address %s %s", SEG[s].id, LIST[l].name); }
 }
+/* two further events are not uplink messages: bidib_send_sys_reset with detectors that answer the occupancy query of the
+ * restart dialogue (all free), and with detectors that stay silent (type 0 / 1 as marker, board -1) */
+static int silent_detectors; static int det_hook(int node, const rc_msg_t *m) { (void) node; return silent_detectors && (m->type == MSG_BM_GET_RANGE || m->type == MSG_BM_ADDR_GET_RANGE || m->type == MSG_BM_GET_CONFIDENCE); }
 static const char *evname(int ev) { if (!nev) ev_build(); return EV[ev].name; }
 
 static void drain(void) { uint8_t *m; while ((m = bidib_read_message())) free(m); while ((m = bidib_read_error_message())) free(m); }
@@ -144,8 +148,9 @@ static void hist_child(const void *job, size_t n) {
 	long checks = 0;
 	if (check_coupling("after start-up") == 0) for (int i = 0; i < len; i++) {
 		const ev_t *e = &EV[ev[i]]; char what[160]; snprintf(what, sizeof what, "event %d: %s", i, e->name);
-		sb_send(M.b[e->board].sbnode, e->type, e->d, e->dl); vs_point(); hx_quiesce(); drain();
-		int bad = check_freed(e, what) + check_coupling(what); checks++;
+		if (e->board < 0) { silent_detectors = e->type; SB.on_msg = det_hook; bidib_send_sys_reset(0); hx_quiesce(); vs_sleep_us(3500000); hx_quiesce(); bidib_flush(); hx_quiesce(); drain(); silent_detectors = 0; SB.on_msg = NULL; }
+		else { sb_send(M.b[e->board].sbnode, e->type, e->d, e->dl); vs_point(); hx_quiesce(); drain(); }
+		int bad = (e->board < 0 ? 0 : check_freed(e, what)) + check_coupling(what); checks++;
 		if (bad) { if (i < len - 1) res_infra("violation before the last event"); break; }
 	}
 	hx_emit_ledger_violations("C08");
